@@ -256,6 +256,22 @@ Definition dstep (d : dcoord) (s : step_in) : dcoord * step_out :=
   let '(c', w, out) := step now (co d) s in
   (DC c' (file d ++ log_bytes ser crc true w) now, out).
 
+(* recover_from_wal() called on a LIVE coordinator (any time after start-up): the log is replayed
+   again; every restorable transaction is (re-)inserted into the pending table (fresh start time,
+   votes from the log), transactions still collecting votes are left as they are, orphaned lock
+   handles are released; nothing is written.  None = the replay failed *)
+Definition recover_live (d : dcoord) : option (dcoord * list N) :=
+  match replay_file deser crc true (file d) with
+  | ErrChecksum _ => None
+  | Ok es =>
+      let '(r, stats) := recover_entries live_rule first_wins (clock d) es in
+      let s := fold_left (scan_step live_rule) es sc0 in
+      Some (DC (Co (fold_left (fun p x => aset p (fst x) (snd x)) (pending r) (pending (co d)))
+                   (release (locks (co d)) (map snd (orphans s)))
+                   (cfg_prepare_timeout (co d)))
+               (file d) (clock d), stats)
+  end.
+
 (* new coordinator .with_wal(TxWal::open(f)) + recover_from_wal(): None = recovery failed *)
 Definition restart (now : N) (f : list byte) : option (dcoord * list N) :=
   let f' := if tail_repair then repair f else f in
